@@ -27,11 +27,23 @@ func (e *Engine) doCall(st *State, fr *Frame, res ssa.Value, c *ssa.CallCommon, 
 					args = append(args, e.get(st, fr, a))
 				}
 				e.nilCheck(st, tag, c.Pos(), "invoke")
+				if (c.Method.Name() == "Error" || c.Method.Name() == "String") && len(c.Args) == 0 && !e.inModuleIface(c.Value.Type()) {
+					// textual rendering of a foreign value: a deterministic text, no writes
+					e.bind(fr, res, e.ufResults(st, "text$"+c.Method.Name(), c.Signature(), []Val{recv}))
+					return false
+				}
 				if e.inModuleIface(c.Value.Type()) && len(impls) > 0 {
 					// too many implementers to fork: abstract the call, but havoc only what some
 					// implementer may write (union of their type-based modification sets)
 					m := map[string]bool{}
 					e.callMods(c, m, map[*ssa.Function]bool{})
+					if len(m) == 0 {
+						// no implementer writes anything: a deterministic reader (same receiver and
+						// arguments, same result)
+						e.Havocked["invoke "+c.Method.FullName()+" (pure: no implementer writes memory)"]++
+						e.bind(fr, res, e.ufResults(st, "invoke$"+c.Method.FullName(), c.Signature(), append([]Val{recv}, args...)))
+						return false
+					}
 					if !m["*"] {
 						e.Havocked["invoke "+c.Method.FullName()+" (frame: union of implementers' writes)"]++
 						for p := range m {
